@@ -107,6 +107,26 @@ def rule_sqlstate(ctx):
                         ctx.violation("C07.b", "cursor", "FakeSnowflakeCursor.execute", f"sqlstate after {mode}", loc,
                                       f"after {kind} failed with {mode} cursor.sqlstate is `{tagof(st)}` (expected {want!r}) / the error is "
                                       f"{'not raised' if exc is None else 'raised'}")
+    # describe() is an execute of its own (the connector's describe-only execute): same lifecycle on the cursor it is called on
+    if prog.has_fn("cursor", "FakeSnowflakeCursor.describe"):
+        for mode in (None, "duckdb.CatalogException"):
+            for tr in run_execute(prog, "SELECT", mode, entry="describe"):
+                if not tr.hooks.parsed:
+                    continue
+                n += 1
+                st = tr.cur.attrs.get(R().sqlstate)
+                if mode is None:
+                    ok = isinstance(st, Const) and st.v is None  # (what the metadata conversion does with the rows is C06's)
+                    what = "reset by a successful describe()"
+                else:
+                    want = CODES[mode][2]
+                    ok = tr.path.outcome == "raise" and isinstance(st, Const) and st.v == want
+                    what = f"== {want!r} after describe() failed with {mode}"
+                ctx.ob("C07.b", f"describe(): sqlstate {what}", ok, loc, tagof(st))
+                if not ok:
+                    ctx.violation("C07.b", "cursor", "FakeSnowflakeCursor.describe", f"sqlstate {what.split(' ')[0]} describe", loc,
+                                  f"after describe() ({'engine accepts' if mode is None else mode}) cursor.sqlstate is `{tagof(st)}`: describe() is an "
+                                  f"execute on this cursor, so it must reset the state on success and show the error's state on failure")
     # a statement that matches nop_regexes is a successful execute too
     from ..values import Lst
     for tr in run_execute(prog, "SELECT", None, nop_regexes=Lst([Const("^CALL")])):
